@@ -82,6 +82,7 @@ type AdmitKnobs struct {
 	SubPct      int    // % with a subresource
 	ExemptHeavy bool
 	Pods        func(r *Rng) []*corev1.Pod // population for namespace requests
+	Shared      *AdmitCase                 // when set: take configuration and evaluator from this case (requests of one group go to one controller)
 }
 
 func mutateForUpdate(r *Rng, p *corev1.Pod) (*corev1.Pod, string) {
@@ -149,10 +150,16 @@ func genAdmitCase(r *Rng, i int, k AdmitKnobs) *AdmitCase {
 	} else {
 		a.ExNS, a.ExUsers, a.ExRC = subset(r, namePool), subset(r, namePool), subset(r, namePool)
 	}
+	if k.Shared != nil { // a request to the same controller as the group's first request: same configuration, same evaluator
+		a.Defaults, a.ExNS, a.ExUsers, a.ExRC, a.Salt = k.Shared.Defaults, k.Shared.ExNS, k.Shared.ExUsers, k.Shared.ExRC, k.Shared.Salt
+	}
 	a.NS = pickName(r, a.ExNS, "ns")
 	a.User = pickName(r, a.ExUsers, "u")
 	a.Name = fmt.Sprintf("obj-%d", i)
 	a.Syn = r.Intn(100) < k.SynPct
+	if k.Shared != nil {
+		a.Syn = k.Shared.Syn
+	}
 	a.NSLabels = genLabels(r)
 	a.Op = admissionv1.Create
 	if r.Chance(2, 5) {
